@@ -706,12 +706,26 @@ Vector3d CalcAngularVelocityfromMatrix (
     double preFactor = atan2(l.norm(),(RotMat.trace() - 1.0))/l.norm();
     return preFactor*l;
   }
-  else if((RotMat(0,0)>0 && RotMat(1,1)>0 && RotMat(2,2) > 0) || l.norm() < tol){
+  else if(RotMat(0,0)>0 && RotMat(1,1)>0 && RotMat(2,2) > 0){
     return Vector3dZero;
   }
   else{
+    //rotation by pi about the unit axis n: RotMat = 2*n*n^T - 1. The
+    //magnitudes of the components of n follow from the diagonal, their
+    //relative signs from the row of the largest component.
     double PI = atan(1)*4.0;
-    return Vector3d (PI/2*(RotMat(0,0) + 1.0),PI/2*(RotMat(1,1) + 1.0),PI/2*(RotMat(2,2) + 1.0));
+    Vector3d n (sqrt(std::max(0.,(RotMat(0,0) + 1.0)*0.5)),
+                sqrt(std::max(0.,(RotMat(1,1) + 1.0)*0.5)),
+                sqrt(std::max(0.,(RotMat(2,2) + 1.0)*0.5)));
+    unsigned int k = 0;
+    if(n[1] > n[k]) k = 1;
+    if(n[2] > n[k]) k = 2;
+    for(unsigned int i = 0; i < 3; i++){
+      if(i != k && RotMat(k,i) < 0){
+        n[i] = -n[i];
+      }
+    }
+    return PI*n;
   }
 } 
 
